@@ -332,7 +332,22 @@ claim_pending("C27", "other",
       "Lean 4 proofs + syntactic H-kahn table regenerated from the source + call-pattern sweep on the real encoder",
       "lean-correspondence")
 
+claim("C20", "other",
+      "Model/ToolGate.lean transcribes (file:line) the chain configuration member -> derived signal -> sequence/frame header bit and MD-level block gate for 16 tool "
+      "switches, plus set_tile_info/write_tile_info. Proved for all presets, picture kinds and search results: switch OFF => header bit OFF (tool_off_flag_off_*), the "
+      "AV1 block syntax has no element for a tool whose flag is 0 (flag_off_block_off, tool_off_block_off), CfL and palette-alone have no header gate "
+      "(cfl_has_no_header_gate, palette_off_not_visible_in_headers); for all frame/SB sizes and requests the signalled tile log2 is the request clamped to the AV1 "
+      "5.9.15 limits, count in (2^(k-1),2^k], tiles non-empty and covering (tile_info_spec, tile_requested_used, api_sizes_need_no_minimum_tiling). Ties: every header "
+      "of real encodes (switch x preset x screen-content mode x content that would pick the tool) goes through the property oracle and is compared with the model's "
+      "prediction for OFF/ON/DEFAULT; the real decoder's guarded per-block counters must be 0 for a switched-off tool; 'all on' runs record that each counter is "
+      "non-zero when the tool is on.",
+      AX + "; the lemmas are about a hand transcription: a derivation site it missed is only caught by the sampled real-encode oracle and the decoder counters (guarded "
+      "hook in EbDecParseBlock.c); global-motion use has no block counter; search results, temporal layer and reference flag are opaque model inputs; 8-bit CQP, "
+      "default prediction structure; the only decoder is SVT's own.",
+      "Lean 4 proof over a hand-written model + real-encoder oracle (Lean header parser, instrumented real decoder)",
+      "lean-correspondence")
+
 _PENDING = ("check under construction (model planned in DESIGN.md section 5); not claimed until its theorem and correspondence run exist "
             "and pass on the unchanged tree")
-for _p in ["C01", "C08", "C09", "C11", "C20"]:
+for _p in ["C01", "C08", "C09", "C11"]:
     NOT_CLAIMED[_p] = _PENDING
